@@ -44,46 +44,44 @@ type icache struct {
 	sync.RWMutex
 	expire time.Duration
 	items  map[string]item
+	// gen counts the account changes seen by the cache. A lookup that
+	// missed may only store what it fetched from the IAM service if no
+	// change was made in the meantime, otherwise it could bring back an
+	// account that has just been deleted or updated.
+	gen uint64
 }
 
-func (i *icache) set(k string, v Account) {
+// setIfCurrent stores the account fetched by a lookup that saw
+// generation gen before asking the IAM service
+func (i *icache) setIfCurrent(k string, v Account, gen uint64) {
 	cpy := v
 	i.Lock()
-	i.items[k] = item{
-		exp:   time.Now().Add(i.expire),
-		value: cpy,
+	if i.gen == gen {
+		i.items[k] = item{
+			exp:   time.Now().Add(i.expire),
+			value: cpy,
+		}
 	}
 	i.Unlock()
 }
 
-func (i *icache) get(k string) (Account, bool) {
+func (i *icache) get(k string) (Account, uint64, bool) {
 	i.RLock()
 	v, ok := i.items[k]
+	gen := i.gen
 	i.RUnlock()
 	if !ok || !v.exp.After(time.Now()) {
-		return Account{}, false
+		return Account{}, gen, false
 	}
-	return v.value, true
+	return v.value, gen, true
 }
 
-func (i *icache) update(k string, props MutableProps) {
-	i.Lock()
-	defer i.Unlock()
-
-	item, found := i.items[k]
-	if found {
-		updateAcc(&item.value, props)
-
-		// refresh the expiration date
-		item.exp = time.Now().Add(i.expire)
-
-		i.items[k] = item
-	}
-}
-
-func (i *icache) Delete(k string) {
+// invalidate drops the entry of an account that has been created, updated
+// or deleted; the next lookup fetches it from the IAM service
+func (i *icache) invalidate(k string) {
 	i.Lock()
 	delete(i.items, k)
+	i.gen++
 	i.Unlock()
 }
 
@@ -132,23 +130,14 @@ func NewCache(service IAMService, expireTime, cleanupInterval time.Duration) *IA
 	return i
 }
 
-// CreateAccount send create to IAM service and creates an account cache entry
+// CreateAccount send create to IAM service and invalidates the account cache entry
 func (c *IAMCache) CreateAccount(account Account) error {
 	err := c.service.CreateAccount(account)
 	if err != nil {
 		return err
 	}
 
-	// we need a copy of account to be able to store beyond the
-	// lifetime of the request, otherwise Fiber will reuse and corrupt
-	// these entries
-	acct := Account{
-		Access: strings.Clone(account.Access),
-		Secret: strings.Clone(account.Secret),
-		Role:   Role(strings.Clone(string(account.Role))),
-	}
-
-	c.iamcache.set(acct.Access, acct)
+	c.iamcache.invalidate(account.Access)
 	return nil
 }
 
@@ -156,7 +145,7 @@ func (c *IAMCache) CreateAccount(account Account) error {
 // expired. Otherwise retrieves from underlying IAM service and caches
 // result for the expire duration.
 func (c *IAMCache) GetUserAccount(access string) (Account, error) {
-	acct, found := c.iamcache.get(access)
+	acct, gen, found := c.iamcache.get(access)
 	if found {
 		return acct, nil
 	}
@@ -167,7 +156,8 @@ func (c *IAMCache) GetUserAccount(access string) (Account, error) {
 	}
 
 	verifMissFetched(access)
-	c.iamcache.set(access, a)
+	// the key may belong to the request (Fiber reuses its buffers)
+	c.iamcache.setIfCurrent(strings.Clone(access), a, gen)
 	return a, nil
 }
 
@@ -178,7 +168,7 @@ func (c *IAMCache) DeleteUserAccount(access string) error {
 		return err
 	}
 
-	c.iamcache.Delete(access)
+	c.iamcache.invalidate(access)
 	return nil
 }
 
@@ -188,7 +178,7 @@ func (c *IAMCache) UpdateUserAccount(access string, props MutableProps) error {
 		return err
 	}
 
-	c.iamcache.update(access, props)
+	c.iamcache.invalidate(access)
 	return nil
 }
 
